@@ -179,7 +179,8 @@ def analyse(model: Model):
                         # x += ... mutates in place only for lists/sets/dicts; numbers/strings rebind
                         root, own, fld = classify(t)
                         out.append(dict(kind="aug-name", target=t.id, root=root, owned=own, field=None, func=fi,
-                                        where=f"{fi.module.rel}:{node.lineno}", value=node.value))
+                                        where=f"{fi.module.rel}:{node.lineno}", value=node.value,
+                                        setop=isinstance(node.op, (ast.BitOr, ast.BitAnd, ast.BitXor))))
             elif isinstance(node, ast.Delete):
                 for t in node.targets:
                     if isinstance(t, (ast.Subscript, ast.Attribute)):
